@@ -495,6 +495,7 @@ def run(ctx):
         ctx.broken.append("translator:gen/c19_select_sublist.py: %s" % (str(e)[:300],))
         ctx.notes.append(str(e))
     ctx.prove("C19/Props.v")
+    ctx.prove("C19/PropsExtra.v")
     run_select_sublist(ctx)
     run_machinery(ctx)
     run_programs(ctx)
